@@ -47,7 +47,12 @@ func (c udpCase) ops() []udpx.Op {
 	case "socket-fail":
 		first = []udpx.Op{open, {K: "S", C: 1, Key: 1, T: 1, N: 5}}
 	case "shutdown":
+		// A: 0 own socket, 1 a listener-manager handle (last close), 2 a handle whose address stays
+		// open for somebody else; B: 1 = no traffic at all before (the handler has been idle)
 		first = []udpx.Op{open, {K: "S", C: 1, Key: 1, T: 0, N: 5}, {K: "R", C: 0, T: 1, N: 5}}
+		if c.B == 1 {
+			first = nil
+		}
 		return append(first, udpx.Op{K: "Q"})
 	case "idle":
 		// whatever the first datagrams were (A: a datagram whose write to the target fails / an ordinary
@@ -73,7 +78,8 @@ func udpScenario(c udpCase) *engine.Scenario {
 	sc := &engine.Scenario{Name: "udp-inputs", Opt: vrt.Options{Horizon: udpx.Horizon}}
 	ops := c.ops()
 	sc.Body = func() {
-		udpx.Run(udpx.Config{Keys: udpx.DefaultKeys(), NatTimeout: 5 * time.Minute, FailSocket: c.FailSocket}, ops, tr)
+		udpx.Run(udpx.Config{Keys: udpx.DefaultKeys(), NatTimeout: 5 * time.Minute, FailSocket: c.FailSocket,
+			ViaManager: c.Kind == "shutdown" && c.A >= 1, KeepOther: c.Kind == "shutdown" && c.A == 2}, ops, tr)
 	}
 	sc.Check = func(x *vrt.Exec) (string, bool, []*engine.Finding) {
 		fs := hk.Generic(x, hk.Opts{Leaks: true})
@@ -156,7 +162,11 @@ func udpCases() []udpCase {
 	for f := 1; f <= 3; f++ {
 		out = append(out, udpCase{Kind: "socket-fail", FailSocket: f})
 	}
-	out = append(out, udpCase{Kind: "shutdown"})
+	for a := 0; a < 3; a++ {
+		for b := 0; b < 2; b++ {
+			out = append(out, udpCase{Kind: "shutdown", A: a, B: b})
+		}
+	}
 	for a := 0; a < 4; a++ {
 		out = append(out, udpCase{Kind: "idle", A: a})
 	}
@@ -199,12 +209,22 @@ func udpRaceInputs() [][]udpx.Op {
 
 func udpScenarios() []*engine.Scenario {
 	var out []*engine.Scenario
-	for i, ops := range udpRaceInputs() {
+	inputs := udpRaceInputs()
+	nRace := len(inputs)
+	// shutdown of an idle handler that reads from a listener-manager handle: last close of the
+	// address, and close with the address kept open by somebody else (every schedule)
+	inputs = append(inputs, []udpx.Op{{K: "Q"}}, []udpx.Op{{K: "Q"}}, []udpx.Op{{K: "S", C: 0, Key: 0, T: 1, N: 20}, {K: "Q"}})
+	for i, ops := range inputs {
 		ops := ops
 		tr := &udpx.Trace{}
 		sc := &engine.Scenario{Name: fmt.Sprintf("udp-expiry-race-%d", i), Opt: vrt.Options{Horizon: udpx.Horizon}}
+		cfg := udpx.Config{Keys: udpx.DefaultKeys(), NatTimeout: 10 * time.Second}
+		if i >= nRace {
+			sc.Name = fmt.Sprintf("udp-shared-shutdown-%d", i-nRace)
+			cfg.ViaManager, cfg.KeepOther = true, i-nRace == 1
+		}
 		sc.Body = func() {
-			udpx.Run(udpx.Config{Keys: udpx.DefaultKeys(), NatTimeout: 10 * time.Second}, ops, tr)
+			udpx.Run(cfg, ops, tr)
 		}
 		sc.Check = func(x *vrt.Exec) (string, bool, []*engine.Finding) {
 			fs := hk.Generic(x, hk.Opts{Leaks: true, MapRaces: true})
@@ -213,6 +233,9 @@ func udpScenarios() []*engine.Scenario {
 			}
 			if len(fs) == 0 && len(tr.Open) > 0 {
 				fs = append(fs, &engine.Finding{Sig: "socket-leak", Msg: fmt.Sprint(tr.Open)})
+			}
+			if len(fs) == 0 && !tr.Returned {
+				fs = append(fs, &engine.Finding{Sig: "handle-not-returned", Msg: "PacketHandler.Handle did not return after its handle was closed"})
 			}
 			obs := ""
 			for _, st := range tr.Steps {
